@@ -66,10 +66,13 @@ extern size_t g_hp_client_closes, g_hp_server_closes, g_hp_accepts, g_hp_listen_
 #define NOT_CLOSED (g_hp_client_closes == OLD(g_hp_client_closes) && g_hp_server_closes == OLD(g_hp_server_closes))
 #define COMPLETES_SOME(ec, n, room) ((ec) >= 0 && (n) <= (size_t)(room))
 /* memmove inside / into the arrays: only the ranges matter (the byte content of the buffers is abstract) */
+extern size_t g_mm_calls, g_mm_n; extern char *g_mm_dst, *g_mm_src;   /* the last memmove inside the arrays */
+#define MM_GHOST g_mm_calls, g_mm_n, g_mm_dst, g_mm_src
 static inline void hp_memmove(struct hprx *self, char *dst, char *src, size_t n)
 {
   __CPROVER_assert(SPAN_OK(self, dst, n), "[C18.bounds] memmove destination range lies inside one of the proxy's arrays");
   __CPROVER_assert(SPAN_OK(self, src, n), "[C18.bounds] memmove source range lies inside one of the proxy's arrays");
+  g_mm_calls = g_mm_calls + 1; g_mm_dst = dst; g_mm_src = src; g_mm_n = n;
 }
 static inline void hp_copy_in(struct hprx *self, char *dst, size_t n)
 { __CPROVER_assert(SPAN_OK(self, dst, n), "[C18.bounds] the range a string is copied to lies inside one of the proxy's arrays"); }
